@@ -53,3 +53,18 @@ Example C10_example :
                [OpOpen; OpReqData [71;69;84;32;47;97;97;97;97;97]%N; OpReqData [97;97;97;97;97;97;97;97;97;97]%N] in
   chk_C10 16 2 obs = true /\ map oc_rc obs = [(-1)%Z; c_HTP_STREAM_DATA; c_HTP_STREAM_ERROR] /\ map oc_ibuf obs = [0; 10; 10].
 Proof. vm_compute. repeat split. Qed.
+
+(* ---- the full statement is PROVED: every reachable state of the connection model, for every operation sequence, callback oracle and configuration
+        (invariant lim_inv over the four buffers and the transaction list; frame lemmas for every state function of both directions; PLimits*.v) ---- *)
+Require Import Htp.Proof.PLimits Htp.Proof.PLimitsRes Htp.Proof.PLimitsRun.
+Theorem C10_limits : C10_limits_full.
+Proof. exact C10_limits_obs. Qed.
+Print Assumptions C10_limits.
+(* the same on states rather than observations, and with the pending header counted together with the buffer *)
+Theorem C10_limits_states : forall cb g ops,
+  let c := fst (cp_run cb g connp_new ops) in
+  (forall b, k_buf (c_in c) = Some b -> length b + olen (k_header (c_in c)) <= g_field_limit_hard g) /\
+  (forall b, k_buf (c_out c) = Some b -> length b + olen (k_header (c_out c)) <= g_field_limit_hard g) /\
+  (0 < g_max_tx g -> length (c_txs c) <= S (g_max_tx g)).
+Proof. exact C10_limits_reachable. Qed.
+Print Assumptions C10_limits_states.
